@@ -188,16 +188,24 @@ Definition ref_step (st : rst) (eo : event * (Z * Z * bool)) : rst :=
       end
   end.
 
+(* The premise is prefix-closed: a failure counts iff the premise still holds when it
+   happens (events after the first premise violation are not judged; failures before it are
+   kept — a misbehaving implementation must not be able to hide behind a premise that its
+   own later outputs make false). *)
+Definition ref_step_guarded (st : rst) (eo : event * (Z * Z * bool)) : rst :=
+  let st' := ref_step st eo in
+  if hyp st' then st'
+  else mkR (slots st') (all_ids st') (all_leases st') (steps st') false
+           (q1 st) (q2 st) (q3 st) (q5 st) (q6 st).
+
 Definition prop (h : list event) (obs : list (Z * Z * bool)) : verdict :=
-  let st := fold_left ref_step (combine h obs)
+  let st := fold_left ref_step_guarded (combine h obs)
                       (mkR [] [] [] [] true true true true true true) in
-  if hyp st then
-    vjoin (check_that (q1 st) (VPropFail 1))
-   (vjoin (check_that (q2 st) (VPropFail 2))
-   (vjoin (check_that (q3 st) (VPropFail 3))
-   (vjoin (check_that (q5 st) (VPropFail 5))
-          (check_that (q6 st) (VPropFail 6)))))
-  else VOk.
+  vjoin (check_that (q1 st) (VPropFail 1))
+ (vjoin (check_that (q2 st) (VPropFail 2))
+ (vjoin (check_that (q3 st) (VPropFail 3))
+ (vjoin (check_that (q5 st) (VPropFail 5))
+        (check_that (q6 st) (VPropFail 6))))).
 
 (* the adapter guard: on non-zero raw counters the accepted values strictly increase *)
 Fixpoint increasing_from (last : option Z) (l : list (option Z)) : bool :=
